@@ -813,11 +813,26 @@ func swStreamC(r *Rng, n int, nBig int, out *AreaOut, add func(cs, desc, histKey
 		R := conf.RetentionDuration()
 		margin := uint64(20 * time.Second)
 		guess := swCutoff(time.Now(), R)
+		// most runs substitute the sweeper's clock (hook, build tag verif): the cutoff is then known exactly, so the
+		// boundary timestamps cutoff-1 / cutoff / cutoff+1 are decided by the real comparison; the clock jumps ten
+		// minutes at every further reading, so a pass that read it again in a later slice would show
+		fixedClock := days != 21000 && r.Chance(80)
+		if fixedClock {
+			T0 := time.Unix(1700000000, 0).Add(time.Duration(i) * time.Second)
+			reads := 0
+			sweeper.VerifSetClock(func(time.Time) time.Time {
+				t := T0.Add(time.Duration(reads) * 10 * time.Minute)
+				reads++
+				return t
+			})
+			guess = swCutoff(T0, R)
+			margin = 0
+		}
 		var e swEnv
 		if days == 21000 {
 			e = swGenEnv(r, native, 0, true, margin, 7, 0)
 		} else {
-			e = swGenEnv(r, native, guess, false, margin, 7, map[bool]int{true: 25, false: 0}[r.Chance(20)])
+			e = swGenEnv(r, native, guess, fixedClock, margin, 7, map[bool]int{true: 25, false: 0}[r.Chance(20)])
 		}
 		if big {
 			sz := 1000 + r.Intn(1400)
@@ -845,6 +860,7 @@ func swStreamC(r *Rng, n int, nBig int, out *AreaOut, add func(cs, desc, histKey
 		serr := sw.VerifSweepOnce(ctx)
 		t1 := time.Now()
 		cancel()
+		sweeper.VerifSetClock(nil)
 		after, err := swDump(env, swNames(e))
 		done()
 		if err != nil {
@@ -852,7 +868,9 @@ func swStreamC(r *Rng, n int, nBig int, out *AreaOut, add func(cs, desc, histKey
 		}
 		cutLo := swCutoff(t0, R)
 		cutHi := swCutoff(t1, R)
-		if cutHi-cutLo > margin/2 || cutLo-guess > margin/2 {
+		if fixedClock {
+			cutLo, cutHi = guess, guess
+		} else if cutHi-cutLo > margin/2 || cutLo-guess > margin/2 {
 			hist(out.Hist, "real/skipped-slow")
 			continue // the machine stalled: the classification margin is not guaranteed
 		}
@@ -866,7 +884,7 @@ func swStreamC(r *Rng, n int, nBig int, out *AreaOut, add func(cs, desc, histKey
 			sc[j].Lim = lim
 		}
 		cs := fmt.Sprintf("SPass 2 %d %s %s\n    %s\n    (EObs %d %s)", cutLo, cBool(native), swSched(sc), e.coq(), cls, after.coq())
-		hk := fmt.Sprintf("real/native=%v/days=%v/lock=%d/cls=%d", native, days, conf.LockDuration, cls)
+		hk := fmt.Sprintf("real/native=%v/days=%v/lock=%d/fixedclock=%v/cls=%d", native, days, conf.LockDuration, fixedClock, cls)
 		if big {
 			hk += "/big"
 		}
